@@ -118,3 +118,39 @@ pub fn describe(t: &Tree) -> String {
     }
     s
 }
+
+/// While alive, file descriptors 1 and 2 of this process refer to /dev/full:
+/// every write to stdout or stderr fails with ENOSPC. Restored on drop.
+pub struct BrokenStd {
+    saved: [i32; 2],
+}
+
+impl BrokenStd {
+    pub fn install() -> BrokenStd {
+        use std::io::Write;
+        let _ = std::io::stdout().flush();
+        unsafe {
+            let saved = [libc::dup(1), libc::dup(2)];
+            let fd = libc::open(b"/dev/full\0".as_ptr() as *const libc::c_char, libc::O_WRONLY);
+            if fd >= 0 {
+                libc::dup2(fd, 1);
+                libc::dup2(fd, 2);
+                libc::close(fd);
+            }
+            BrokenStd { saved }
+        }
+    }
+}
+
+impl Drop for BrokenStd {
+    fn drop(&mut self) {
+        unsafe {
+            for (i, s) in self.saved.iter().enumerate() {
+                if *s >= 0 {
+                    libc::dup2(*s, i as i32 + 1);
+                    libc::close(*s);
+                }
+            }
+        }
+    }
+}
